@@ -17,6 +17,7 @@ use arrow_select::interleave::interleave;
 use arrow_select::nullif::nullif;
 use arrow_select::take::{TakeOptions, take};
 use arrow_select::window::shift;
+use arrow_select::merge::{merge, merge_n};
 use arrow_select::zip::zip;
 use std::sync::Arc;
 use vcommon::*;
@@ -69,12 +70,15 @@ fn show_mask(m: &[Option<bool>]) -> String {
 
 /// the string value of id `k` (short / inline / longer than 12 bytes so views need a buffer)
 fn sval(k: u32) -> String {
-    let pad = ["", "x", "yy-", "a-long-prefix-over-twelve-bytes-"][(k % 4) as usize];
+    // lengths: <= 4 bytes, <= 4 bytes, 8..9 bytes (inline view, 5..12), > 12 bytes (view needs a data buffer)
+    let pad = ["", "x", "inline-", "a-long-prefix-over-twelve-bytes-"][(k % 4) as usize];
     format!("{pad}{k}")
 }
 fn sval_id(s: &[u8]) -> Option<u32> {
     let s = std::str::from_utf8(s).ok()?;
-    s.trim_start_matches(|c: char| !c.is_ascii_digit()).parse().ok()
+    let k: u32 = s.trim_start_matches(|c: char| !c.is_ascii_digit()).parse().ok()?;
+    // strict: every byte must be the one the id was built from
+    if sval(k) == s { Some(k) } else { None }
 }
 
 const ALL_TYPES: &[&str] =
@@ -411,10 +415,152 @@ fn decode_batch(ty: &str, b: &RecordBatch) -> String {
     res.unwrap_or_else(|| "-".into())
 }
 
+
+/// physical byte array token `<offsets>/<datahex>/<validity|->` → Binary (wide = LargeBinary)
+fn build_bytes(wide: bool, tok: &str) -> ArrayRef {
+    let f: Vec<&str> = tok.split('/').collect();
+    let offs: Vec<i64> = parse_list(f[0]);
+    let data = Buffer::from_vec(unhex(f[1]));
+    let nulls = if f[2] == "-" { None } else { Some(NullBuffer::from(parse_bits(f[2]))) };
+    if wide {
+        Arc::new(LargeBinaryArray::new(arrow_buffer::OffsetBuffer::new(ScalarBuffer::from(offs)), data, nulls))
+    } else {
+        let o: Vec<i32> = offs.iter().map(|x| *x as i32).collect();
+        Arc::new(BinaryArray::new(arrow_buffer::OffsetBuffer::new(ScalarBuffer::from(o)), data, nulls))
+    }
+}
+/// physical observable of a byte array: offsets as stored, the whole value buffer, validity
+fn show_bytes(wide: bool, a: &dyn Array) -> String {
+    // validity is reported as `-` when there is no null (buffer present or not)
+    let nulls = |n: Option<&NullBuffer>| match n {
+        Some(n) if n.null_count() > 0 => show_bits(&n.iter().collect::<Vec<bool>>()),
+        _ => "-".to_string(),
+    };
+    if wide {
+        let b = a.as_binary::<i64>();
+        format!("o={} d={} n={}", show_list(&b.value_offsets().to_vec()), hex(b.value_data()), nulls(b.nulls()))
+    } else {
+        let b = a.as_binary::<i32>();
+        format!("o={} d={} n={}", show_list(&b.value_offsets().to_vec()), hex(b.value_data()), nulls(b.nulls()))
+    }
+}
+fn apply_filter_variant(var: usize, a: &dyn Array, m: &BooleanArray) -> Result<ArrayRef, ArrowError> {
+    match var % 3 {
+        0 => filter(a, m),
+        1 => FilterBuilder::new(m).build().filter(a),
+        _ => FilterBuilder::new(m).optimize().build().filter(a),
+    }
+}
+fn parse_pairs(pairs: &str) -> Vec<(usize, usize)> {
+    if pairs == "-" {
+        vec![]
+    } else {
+        pairs
+            .split(',')
+            .map(|p| {
+                let (a, b) = p.split_once('.').unwrap();
+                (us(a), us(b))
+            })
+            .collect()
+    }
+}
+
+fn run_phys(t: &[&str]) -> String {
+    match t[1] {
+        "bfilter" => {
+            // C03 bfilter <wide> <variant> <bytes-array> <moff> <mask>
+            let (wide, var, tok, moff, mask) = (t[2] == "1", us(t[3]), t[4].to_string(), us(t[5]), parse_mask(t[6]));
+            guarded(move || {
+                let a = build_bytes(wide, &tok);
+                match apply_filter_variant(var, a.as_ref(), &build_mask(&mask, moff)) {
+                    Ok(x) => show_bytes(wide, x.as_ref()),
+                    Err(e) => err_class(&e),
+                }
+            })
+        }
+        "btake" => {
+            // C03 btake <wide> <ity> <bytes-array> <ioff> <indices>   (in-range indices only)
+            let (wide, ity, tok, ioff, idx) = (t[2] == "1", t[3].to_string(), t[4].to_string(), us(t[5]), parse_idx(t[6]));
+            guarded(move || {
+                let a = build_bytes(wide, &tok);
+                match take(a.as_ref(), build_idx(&ity, &idx, ioff).as_ref(), None) {
+                    Ok(x) => show_bytes(wide, x.as_ref()),
+                    Err(e) => err_class(&e),
+                }
+            })
+        }
+        "bconcat" | "binterleave" => {
+            // C03 bconcat <wide> <arr;arr;…>      C03 binterleave <wide> <arr;arr;…> <a.b,…>
+            let (op, wide, toks) = (t[1].to_string(), t[2] == "1", t[3].to_string());
+            let pairs = if t.len() > 4 { t[4].to_string() } else { "-".to_string() };
+            guarded(move || {
+                let arrs: Vec<ArrayRef> = toks.split(';').map(|x| build_bytes(wide, x)).collect();
+                let refs: Vec<&dyn Array> = arrs.iter().map(|a| a.as_ref()).collect();
+                let r = if op == "bconcat" { concat(&refs) } else { interleave(&refs, &parse_pairs(&pairs)) };
+                match r {
+                    Ok(x) => show_bytes(wide, x.as_ref()),
+                    Err(e) => err_class(&e),
+                }
+            })
+        }
+        "fsbfilter" | "fsbtake" => {
+            // C03 fsbfilter <width> <variant> <datahex> <validity|-> <moff> <mask>
+            // C03 fsbtake   <width> <ity>     <datahex> <validity|-> <ioff> <indices>
+            let (op, w, p3, data, nl, off, last) = (t[1].to_string(), us(t[2]), t[3].to_string(), unhex(t[4]), t[5].to_string(), us(t[6]), t[7].to_string());
+            guarded(move || {
+                let nulls = if nl == "-" { None } else { Some(NullBuffer::from(parse_bits(&nl))) };
+                let a = FixedSizeBinaryArray::new(w as i32, Buffer::from_vec(data), nulls);
+                let r = if op == "fsbfilter" {
+                    apply_filter_variant(us(&p3), &a, &build_mask(&parse_mask(&last), off))
+                } else {
+                    take(&a, build_idx(&p3, &parse_idx(&last), off).as_ref(), None)
+                };
+                match r {
+                    Ok(x) => {
+                        let b = x.as_fixed_size_binary();
+                        let n = match b.nulls() {
+                            Some(n) if n.null_count() > 0 => show_bits(&n.iter().collect::<Vec<bool>>()),
+                            _ => "-".to_string(),
+                        };
+                        // value bytes under a null slot are not part of the contract: zero them
+                        let mut d = b.value_data()[..b.len() * w].to_vec();
+                        for i in 0..b.len() {
+                            if b.is_null(i) {
+                                d[i * w..(i + 1) * w].fill(0);
+                            }
+                        }
+                        format!("d={} n={}", hex(&d), n)
+                    }
+                    Err(e) => err_class(&e),
+                }
+            })
+        }
+        "ree" => {
+            // C03 ree <variant> <run_ends> <value rows> <off> <len> <moff> <mask>: filter a sliced RunArray<Int32, Int32>
+            let (var, ends, vals, off, len, moff, mask) =
+                (us(t[2]), parse_list::<i32>(t[3]), parse_rows(t[4]), us(t[5]), us(t[6]), us(t[7]), parse_mask(t[8]));
+            guarded(move || {
+                let values = build("i32", &vals, 0);
+                let ra = RunArray::<Int32Type>::try_new(&Int32Array::from(ends), values.as_ref()).unwrap();
+                let ra = ra.slice(off, len);
+                match apply_filter_variant(var, &ra, &build_mask(&mask, moff)) {
+                    Ok(x) => {
+                        let r = x.as_any().downcast_ref::<RunArray<Int32Type>>().unwrap();
+                        format!("ends={} vals={}", show_list(&r.run_ends().values().to_vec()), show_decoded("i32", r.values().as_ref()))
+                    }
+                    Err(e) => err_class(&e),
+                }
+            })
+        }
+        _ => "bad-op".into(),
+    }
+}
+
 fn run_case(line: &str) -> String {
     let t: Vec<&str> = line.split(' ').collect();
     assert_eq!(t[0], "C03");
     match t[1] {
+        "bfilter" | "btake" | "bconcat" | "binterleave" | "fsbfilter" | "fsbtake" | "ree" => run_phys(&t),
         "filter" => {
             // C03 filter <ty> <variant> <off> <rows> <moff> <mask>
             let (ty, var, off, rows, moff, mask) = (t[2], us(t[3]), us(t[4]), parse_rows(t[5]), us(t[6]), parse_mask(t[7]));
@@ -517,24 +663,43 @@ fn run_case(line: &str) -> String {
                 }
             })
         }
-        "zip" => {
-            // C03 zip <ty> <moff> <mask> <truthy> <falsy>   operand: a:<off>:<rows> | s:<row>
-            let (ty, moff, mask, tr, fa) = (t[2], us(t[3]), parse_mask(t[4]), t[5], t[6]);
+        "zip" | "merge" => {
+            // C03 zip|merge <ty> <moff> <mask> <truthy> <falsy>
+            //   operand: a:<off>:<rows> array | s:<row>[:<off>] scalar (a 1-row slice at <off> of a longer array)
+            let (op, ty, moff, mask, tr, fa) = (t[1], t[2], us(t[3]), parse_mask(t[4]), t[5], t[6]);
             guarded(move || {
                 let m = build_mask(&mask, moff);
                 let operand = |s: &str| -> (ArrayRef, bool) {
                     let f: Vec<&str> = s.split(':').collect();
-                    if f[0] == "s" { (build(ty, &[parse_row(f[1])], 0), true) } else { (build(ty, &parse_rows(f[2]), us(f[1])), false) }
+                    if f[0] == "s" {
+                        (build(ty, &[parse_row(f[1])], if f.len() > 2 { us(f[2]) } else { 0 }), true)
+                    } else {
+                        (build(ty, &parse_rows(f[2]), us(f[1])), false)
+                    }
                 };
                 let (ta, ts) = operand(tr);
                 let (fa, fs) = operand(fa);
+                let f = if op == "zip" { zip } else { merge };
                 let r = match (ts, fs) {
-                    (true, true) => zip(&m, &Scalar::new(ta), &Scalar::new(fa)),
-                    (true, false) => zip(&m, &Scalar::new(ta), &fa),
-                    (false, true) => zip(&m, &ta, &Scalar::new(fa)),
-                    (false, false) => zip(&m, &ta, &fa),
+                    (true, true) => f(&m, &Scalar::new(ta), &Scalar::new(fa)),
+                    (true, false) => f(&m, &Scalar::new(ta), &fa),
+                    (false, true) => f(&m, &ta, &Scalar::new(fa)),
+                    (false, false) => f(&m, &ta, &fa),
                 };
                 match r {
+                    Ok(x) => show_decoded(ty, x.as_ref()),
+                    Err(e) => err_class(&e),
+                }
+            })
+        }
+        "mergen" => {
+            // C03 mergen <ty> <off:rows;…> <k,k,n,…>   (index k = next row of array k, n = null row)
+            let (ty, arrs, idx) = (t[2], t[3], t[4]);
+            guarded(move || {
+                let arrs = parse_arrs(ty, arrs);
+                let refs: Vec<&dyn Array> = arrs.iter().map(|a| a.as_ref()).collect();
+                let idx: Vec<Option<usize>> = if idx == "-" { vec![] } else { idx.split(',').map(|x| if x == "n" { None } else { Some(us(x)) }).collect() };
+                match merge_n(&refs, &idx) {
                     Ok(x) => show_decoded(ty, x.as_ref()),
                     Err(e) => err_class(&e),
                 }
@@ -821,8 +986,10 @@ fn gen_arr_list(rng: &mut Rng, ty: &str, max_arrays: usize) -> (String, Vec<usiz
 
 fn gen_case(rng: &mut Rng) -> (String, String) {
     let ty = *rng.pick(ALL_TYPES);
-    match rng.below(21) {
+    match rng.below(29) {
         20 => gen_take_oob(rng, ty),
+        21..=27 => gen_phys(rng, ty),
+        28 => gen_zip_view_scalars(rng),
         0..=5 => {
             let n = gen_len(rng);
             let (rows, ntag) = gen_rows(rng, ty, n);
@@ -888,7 +1055,7 @@ fn gen_case(rng: &mut Rng) -> (String, String) {
             let operand = |rng: &mut Rng| -> (String, &'static str) {
                 if rng.chance(1, 3) {
                     let (r, _) = gen_rows(rng, ty, 1);
-                    (format!("s:{}", show_row(&r[0])), "scalar")
+                    if rng.bool() { (format!("s:{}", show_row(&r[0])), "scalar") } else { (format!("s:{}:{}", show_row(&r[0]), 1 + rng.usize(8)), "scalar-sliced") }
                 } else {
                     let len = if rng.chance(1, 15) { n + 1 } else { n };
                     let (r, _) = gen_rows(rng, ty, len);
@@ -935,6 +1102,168 @@ fn gen_case(rng: &mut Rng) -> (String, String) {
         }
         _ => gen_coalesce(rng),
     }
+}
+
+
+/// random physical byte array token with `n` slots: first offset may be > 0, null slots may be non-empty
+fn gen_bytes_tok(rng: &mut Rng, n: usize) -> String {
+    let mut offs: Vec<i64> = vec![if rng.chance(1, 3) { rng.usize(5) as i64 } else { 0 }];
+    let null_p = *rng.pick(&[0u64, 0, 3, 10]);
+    let mut valid = vec![];
+    for _ in 0..n {
+        let l = if rng.chance(1, 4) { 0 } else { rng.usize(7) as i64 };
+        offs.push(offs.last().unwrap() + l);
+        valid.push(rng.below(20) >= null_p);
+    }
+    let total = *offs.last().unwrap() as usize + rng.usize(3);
+    let data: Vec<u8> = (0..total).map(|i| (i as u8).wrapping_mul(37).wrapping_add(rng.below(3) as u8)).collect();
+    let nulls = if valid.iter().all(|b| *b) && rng.bool() { "-".to_string() } else if n == 0 { "-".to_string() } else { show_bits(&valid) };
+    format!("{}/{}/{}", show_list(&offs), hex(&data), nulls)
+}
+
+fn gen_phys(rng: &mut Rng, ty: &str) -> (String, String) {
+    let wide = rng.below(2);
+    match rng.below(9) {
+        0 | 1 => {
+            let n = gen_len(rng).min(80);
+            let mlen = if n > 0 && rng.chance(1, 12) { rng.usize(n) } else { n };
+            let (mask, mtag) = gen_mask(rng, mlen);
+            let var = rng.usize(3);
+            (
+                format!("C03 bfilter {} {} {} {} {}", wide, var, gen_bytes_tok(rng, n), gen_off(rng), show_mask(&mask)),
+                format!("op:bfilter fvar:{} {} {}", var, mtag, if mask_nontrivial(&mask) { "nt" } else { "" }),
+            )
+        }
+        2 => {
+            let n = gen_len(rng).min(60);
+            let ity = *rng.pick(IDX_TYPES);
+            let (idx, _, has_null) = gen_indices(rng, ity, n, false);
+            (
+                format!("C03 btake {} {} {} {} {}", wide, ity.0, gen_bytes_tok(rng, n), gen_off(rng), idx),
+                format!("op:btake ity:{} {} {}", ity.0, if has_null { "idx:nulls" } else { "" }, if idx != "-" { "nt" } else { "" }),
+            )
+        }
+        3 => {
+            let k = 1 + rng.usize(4);
+            let toks: Vec<String> = (0..k).map(|_| { let n = if rng.chance(1, 5) { 0 } else { rng.usize(20) }; gen_bytes_tok(rng, n) }).collect();
+            (format!("C03 bconcat {} {}", wide, toks.join(";")), format!("op:bconcat arrays:{} {}", k.min(3), if k > 1 { "nt" } else { "" }))
+        }
+        4 => {
+            let k = 1 + rng.usize(3);
+            let lens: Vec<usize> = (0..k).map(|_| 1 + rng.usize(15)).collect();
+            let toks: Vec<String> = lens.iter().map(|n| gen_bytes_tok(rng, *n)).collect();
+            let m = rng.usize(40);
+            let pairs: Vec<String> = (0..m).map(|_| { let a = rng.usize(k); format!("{}.{}", a, rng.usize(lens[a])) }).collect();
+            (format!("C03 binterleave {} {} {}", wide, toks.join(";"), show_list(&pairs)), format!("op:binterleave arrays:{} {}", k, if m > 1 { "nt" } else { "" }))
+        }
+        5 | 6 => {
+            let w = *rng.pick(&[1usize, 2, 3, 4, 5, 8, 16, 17]);
+            let n = gen_len(rng).min(40);
+            let data = rng.bytes(n * w);
+            let valid: Vec<bool> = (0..n).map(|_| !rng.chance(1, 5)).collect();
+            let nulls = if n == 0 || rng.chance(1, 3) { "-".to_string() } else { show_bits(&valid) };
+            if rng.bool() {
+                let (mask, mtag) = gen_mask(rng, n);
+                let var = rng.usize(3);
+                (
+                    format!("C03 fsbfilter {} {} {} {} {} {}", w, var, hex(&data), nulls, gen_off(rng), show_mask(&mask)),
+                    format!("op:fsbfilter w:{} fvar:{} {} {}", w, var, mtag, if mask_nontrivial(&mask) { "nt" } else { "" }),
+                )
+            } else {
+                let ity = *rng.pick(IDX_TYPES);
+                let (idx, _, has_null) = gen_indices(rng, ity, n, false);
+                (
+                    format!("C03 fsbtake {} {} {} {} {} {}", w, ity.0, hex(&data), nulls, gen_off(rng), idx),
+                    format!("op:fsbtake w:{} ity:{} {} {}", w, ity.0, if has_null { "idx:nulls" } else { "" }, if idx != "-" { "nt" } else { "" }),
+                )
+            }
+        }
+        7 => {
+            // run-end encoded: runs of length 1..6
+            let runs = 1 + rng.usize(12);
+            let mut ends: Vec<i32> = vec![];
+            let mut e = 0;
+            for _ in 0..runs {
+                e += 1 + rng.usize(6) as i32;
+                ends.push(e);
+            }
+            let (vals, _) = gen_rows(rng, "i32", runs);
+            let total = e as usize;
+            let off = if rng.bool() { 0 } else { rng.usize(total) };
+            let len = if rng.chance(1, 2) { total - off } else { rng.usize(total - off + 1) };
+            let mlen = if len > 0 && rng.chance(1, 10) { rng.usize(len) } else { len };
+            let (mask, mtag) = gen_mask(rng, mlen);
+            let var = rng.usize(3);
+            (
+                format!("C03 ree {} {} {} {} {} {} {}", var, show_list(&ends), show_rows(&vals), off, len, gen_off(rng), show_mask(&mask)),
+                format!("op:ree fvar:{} {} {} {}", var, if off > 0 { "ree:sliced" } else { "" }, mtag, if mask_nontrivial(&mask) { "nt" } else { "" }),
+            )
+        }
+        _ => {
+            if rng.bool() {
+                // merge: truthy has one row per true slot, falsy one per false slot
+                let n = gen_len(rng).min(120);
+                let (mask, mtag) = gen_mask(rng, n);
+                let nt = mask.iter().filter(|b| **b == Some(true)).count();
+                let operand = |rng: &mut Rng, k: usize| -> (String, &'static str) {
+                    if rng.chance(1, 3) {
+                        let (r, _) = gen_rows(rng, ty, 1);
+                        (format!("s:{}", show_row(&r[0])), "scalar")
+                    } else {
+                        let extra = rng.usize(2);
+                        let (r, _) = gen_rows(rng, ty, k + extra);
+                        (format!("a:{}:{}", gen_off(rng), show_rows(&r)), "array")
+                    }
+                };
+                let (tr, tt) = operand(rng, nt);
+                let (fa, ft) = operand(rng, n - nt);
+                (
+                    format!("C03 merge {} {} {} {} {}", ty, gen_off(rng), show_mask(&mask), tr, fa),
+                    format!("op:merge ty:{} merge:{}/{} {} {}", ty, tt, ft, mtag, if mask_nontrivial(&mask) { "nt" } else { "" }),
+                )
+            } else {
+                let (arrs, lens) = gen_arr_list(rng, ty, 4);
+                let mut left = lens.clone();
+                let m = rng.usize(60);
+                let mut idx: Vec<String> = vec![];
+                let mut cur: Option<usize> = None;
+                for _ in 0..m {
+                    // runs of the same source
+                    if cur.is_none() || rng.chance(1, 3) {
+                        cur = Some(rng.usize(lens.len() + 1));
+                    }
+                    let c = cur.unwrap();
+                    if c == lens.len() {
+                        idx.push("n".into());
+                    } else if left[c] > 0 {
+                        left[c] -= 1;
+                        idx.push(c.to_string());
+                    } else {
+                        idx.push("n".into());
+                    }
+                }
+                (format!("C03 mergen {} {} {}", ty, arrs, show_list(&idx)), format!("op:mergen ty:{} arrays:{} {}", ty, lens.len().min(3), if m > 1 { "nt" } else { "" }))
+            }
+        }
+    }
+}
+
+/// zip / merge of two Utf8View / BinaryView scalars, the falsy one a 1-row slice of an array that
+/// owns data buffers (inline values of <= 4 and 5..12 bytes)
+fn gen_zip_view_scalars(rng: &mut Rng) -> (String, String) {
+    let ty = *rng.pick(&["sv", "bv"]);
+    let n = 2 + rng.usize(12);
+    let (mask, mtag) = gen_mask(rng, n);
+    let scalar = |rng: &mut Rng| -> String {
+        let row = if rng.chance(1, 8) { "n".to_string() } else { rng.below(61).to_string() };
+        if rng.chance(1, 4) { format!("s:{}", row) } else { format!("s:{}:{}", row, *rng.pick(&[1usize, 4, 5, 8, 9])) }
+    };
+    let (tr, fa) = (scalar(rng), scalar(rng));
+    let op = if rng.chance(1, 4) { "merge" } else { "zip" };
+    (
+        format!("C03 {} {} {} {} {} {}", op, ty, gen_off(rng), show_mask(&mask), tr, fa),
+        format!("op:{} ty:{} zip:view-scalars {} {}", op, ty, mtag, if mask_nontrivial(&mask) { "nt" } else { "" }),
+    )
 }
 
 /// small `take` with exactly one out-of-range valid index of a chosen kind (just past the end,
@@ -1059,6 +1388,17 @@ fn answer_tags(line: &str, answer: &str) -> &'static str {
         let oob = parse_idx(t[8]).iter().any(|(v, valid)| *valid && (*v < 0 || *v >= n));
         if oob && answer != "FAIL" && !answer.starts_with("ERR:") {
             return " take:oob-returned-ok";
+        }
+    }
+    // known finding: zip of two byte-view scalars rewrites the buffer index of an INLINE falsy view
+    // (5..12 bytes: content corrupted) when the falsy scalar is a slice of an array owning data buffers
+    if t.len() == 7 && (t[1] == "zip" || t[1] == "merge") && (t[2] == "sv" || t[2] == "bv") && answer.starts_with("BAD:GARBLED") {
+        let tr: Vec<&str> = t[5].split(':').collect();
+        let fa: Vec<&str> = t[6].split(':').collect();
+        if tr[0] == "s" && tr[1] != "n" && fa[0] == "s" && fa.len() == 3 && fa[2] != "0" && fa[1] != "n" {
+            if fa[1].parse::<u32>().map(|k| k % 4 == 2).unwrap_or(false) {
+                return " kf:zip-view-inline-buffer-index";
+            }
         }
     }
     ""
